@@ -180,7 +180,7 @@ impl SubCheck for Lin {
         "linearizability_vs_brute_force"
     }
     fn cases(&self, tier: Tier) -> u32 {
-        tier.pick(40000, 800000)
+        tier.pick(300000, 4000000)
     }
     fn strategy(&self, tier: Tier) -> BoxedStrategy<HistCase> {
         hist_strategy(tier.pick(18, 22))
